@@ -179,7 +179,7 @@ PROPS = {
         "thm_module": "NutsModel.Thm.C15",
         "namespace": "NutsModel.C15",
         "theorems": ["store_sound", "flush_complete", "finalize_complete", "flushed_data_stable",
-                     "crash_after_flush_loses_only_tail", "defined_stays_defined", "buffer_bounded", "not_sound_without_monotone"],
+                     "crash_after_flush_loses_only_tail", "defined_stays_defined", "buffer_bounded", "not_sound_without_monotone", "finalize_exact"],
         "harness": "C15",
         "level": "proof",
         "rule": ("real ZarrConfig (MemoryStore and FilesystemStore re-opened with a fresh store object) and ZarrAsyncConfig (tokio, "
